@@ -1,4 +1,5 @@
 import ast
+import copy
 from typing import Any, Dict, List, Optional, Tuple
 
 from func_adl.ast.func_adl_ast_utils import FuncADLNodeTransformer
@@ -69,6 +70,15 @@ def remove_empty_metadata(a: ast.AST) -> ast.AST:
     """
 
     class _cleaner(ast.NodeTransformer):
+        def generic_visit(self, node: ast.AST) -> ast.AST:
+            # `NodeTransformer.generic_visit` edits the node (and its child lists) in place.
+            # Work on a shallow copy so that the AST we were given is left alone.
+            new_node = copy.copy(node)
+            for field, value in ast.iter_fields(node):
+                if isinstance(value, list):
+                    setattr(new_node, field, list(value))
+            return super().generic_visit(new_node)
+
         def visit_Call(self, node: ast.Call):
             n = self.generic_visit(node)
             assert isinstance(n, ast.Call)
